@@ -158,11 +158,11 @@ class C18(PropertyCheck):
                               "cov": None, "norm": "l1sum", "scale": 1.0, "loc": 0.0,
                               "p": [min(s - 1, s // 2) for s in shape], "seed": n * 97 + int(fw * 8),
                               "shift": [1, 0, 1], "ab": [2.0, -1.0]})
-        n_f = 420 if quick else 5000
+        n_f = 420 if quick else 4000
         small = [1, 2, 2, 3, 3, 4, 4, 5, 5, 6, 6, 7, 7, 8, 9]
         for _ in range(n_f):
             cases.append(_rand_case(rng, tier, small))
-        for _ in range(10 if quick else 150):   # a tail of larger grids
+        for _ in range(10 if quick else 100):   # a tail of larger grids
             cases.append(_rand_case(rng, tier, [7, 8, 9, 10, 11, 12]))
         for _ in range(12 if quick else 120):
             cases.append({"kind": "widths", "x": rng.choice([0.0, 1.0, 6.0, 0.3, 2.5, 1e-3, 1e6, -4.0,
